@@ -84,7 +84,8 @@ CHECKS = {
        "current_scope and every stack pop is a possible Crash of the model) never crashes on ANY sequence of classified lines, keeps its "
        "stack invariant, and close_file always ends with nothing open. The model is trace-validated: the implementation's own classification of "
        "each logical line is recorded and replayed (scope objects, lines, parents, end errors compared). Totality of the text-level readers, the "
-       "preprocessor and the time bound are exercised on prefixes/mutants of all sample sources (parse and the didOpen/didChange path), not proved.",
+       "preprocessor and the time bound are exercised on prefixes/mutants of all sample sources (parse and the didOpen/didChange path), not proved; "
+       "for long runs of equal lines the number of line fetches must stay linear in the length (deterministic count).",
   note="Partial. Trusted: Coq kernel, vm_compute, recording wrappers, harness. Not modelled: statement readers, regex running time, wall time.",
   technique="Rocq proof (safety invariant of a stack machine for all token streams) + trace validation + mutation-based crash oracle",
   design="4/C03"),
